@@ -148,14 +148,20 @@ class Check:
         tmp = os.path.join(EVID, '.%s.json.tmp' % self.pid)
         json.dump(ev, open(tmp, 'w'), indent=1, sort_keys=False)
         os.replace(tmp, os.path.join(EVID, '%s.json' % self.pid))
-        print('[%s] tier=%s obligations=%d discharged=%d known=%d new=%d rules=%d wall=%.1fs' % (
-            self.pid, self.tier, total, ok, len(kn), len(new), len(per_rule), time.time() - self.t0))
+        out = ['[%s] tier=%s obligations=%d discharged=%d known=%d new=%d rules=%d wall=%.1fs' % (
+            self.pid, self.tier, total, ok, len(kn), len(new), len(per_rule), time.time() - self.t0)]
         for r in sorted(per_rule):
-            print('  %-8s %3d/%-3d %s' % (r, per_rule[r]['discharged'], per_rule[r]['obligations'], self.rules.get(r, '')[:110]))
-        for l in lines:
-            print(l)
+            out.append('  %-8s %3d/%-3d %s' % (r, per_rule[r]['discharged'], per_rule[r]['obligations'], self.rules.get(r, '')[:110]))
+        out.extend(lines)
         if broken:
-            print('ANALYSIS-BROKEN property=%s: %s' % (self.pid, broken))
+            out.append('ANALYSIS-BROKEN property=%s: %s' % (self.pid, broken))
+        try:
+            import sys
+            sys.stdout.write('\n'.join(out) + '\n')
+            sys.stdout.flush()
+        except BrokenPipeError:
+            pass   # the reader went away; the verdict is in the exit status and the evidence file
+        if broken:
             return 2
         return 1 if new else 0
 
